@@ -126,6 +126,14 @@ class Check:
             add.append(f"test('t{k}', {e}, env: ['ZED=1', 'ALPHA=2', 'MID=3'], depends: [{dep}], suite: ['s{k}', 'zz', 'aa'])\n")
         if ex.get('install'):
             add.append("install_data('data.txt', install_dir: 'share/c06')\ninstall_headers('inst.h')\n")
+            # a tree with several entries: whatever order the directory listing has must not show in generated text
+            td = os.path.join(sd, 'instree')
+            for rel in ('zz/last.txt', 'aa/first.txt', 'mm/mid.txt', 'top1.txt', 'top0.txt', 'aa/second.txt'):
+                os.makedirs(os.path.dirname(os.path.join(td, rel)), exist_ok=True)
+                with open(os.path.join(td, rel), 'w') as f:
+                    f.write(rel + '\n')
+            add.append("install_subdir('instree', install_dir: 'share/c06tree', exclude_files: ['mm/mid.txt'])\n")
+            add.append("fs = import('fs')\nconfigure_file(output: 'c06_listing.txt', command: [py, '-c', 'import sys; open(sys.argv[1], \"w\").write(\"x\")', '@OUTPUT@'])\n")
             with open(os.path.join(sd, 'inst.h'), 'w') as f:
                 f.write('#define INST 1\n')
         head: T.List[str] = []
